@@ -58,6 +58,8 @@ def mh_behaviour(rng, alg, fam, total=None, pieces=None):
     for ln in pieces:
         cmds.append("mhupd 0 %d %d %d %s" % (b, off, ln, place(rng)))
         off += ln
+        if rng.random() < 0.2:      # the caller relocates the live context (struct copy / realloc): the context is plain data
+            cmds.append("mhmove 0")
     cmds.append("mhfin 0")
     return cmds
 
@@ -125,6 +127,8 @@ def rh_behaviour(rng, fam, scan, w=None):
         else:
             ml = rng.randrange(0, 1500)
         cmds.append("rhrun 0 %d %d %d %d %d %s" % (b, base, ml, m, t, place(rng)))
+        if rng.random() < 0.12:
+            cmds.append("rhmove 0")
         total += ml
         if total > 6000:
             break
